@@ -779,3 +779,55 @@ def narrowed_char_eof_tests(f):
                 if st.replace('const ', '').strip() in ('char', 'signed char'):
                     out.append(i)
     return out
+
+
+def copy_coverage(P, record, skip=()):
+    """(fields of `record` seen in its member functions, {copy constructor / copy assignment -> fields NOT taken from the source})
+    a field counts as copied when the constructor initialiser (or an assignment in operator=) of that field mentions the same
+    field of the source object"""
+    from vlib import model as _m
+    fields = set()
+    fns = [g for g in P.fns.values() if (g.record or '') == record and g.body is not None]
+    for g in fns:
+        for i in g.all_nodes():
+            r = g.N(i).get('ref') if g.N(i)['k'] == 'MemberExpr' else None
+            if r and r.startswith('f:') and _m.strip_targs(r).startswith('f:' + record + '::'):
+                fields.add(r)
+    fields = set(x for x in fields if x.rsplit('::', 1)[-1] not in skip)
+    out = {}
+    for g in fns:
+        if not (len(g.params) == 1 and record.rsplit('::', 1)[-1] in (g.types[g.params[0]['t']] or '') and (g.kind == 'ctor' or g.short == 'operator=')):
+            continue
+        src = g.params[0]['ref']
+        done = set()
+        if g.kind == 'ctor':
+            for x in g.d.get('inits', []):
+                if x.get('field') in fields and src in g.subtree_refs(x['n']) and x['field'] in g.subtree_refs(x['n']):
+                    done.add(x['field'])
+        for i in g.all_nodes():
+            n = g.N(i)
+            if (n['k'] == 'BinaryOperator' and n.get('op') == '=') or (n['k'] == 'CXXOperatorCallExpr' and n.get('op') == '='):
+                ch = n['ch'][-2:]
+                lf = g.ref_of(ch[0])
+                if lf in fields and src in g.subtree_refs(ch[1]) and lf in g.subtree_refs(ch[1]):
+                    done.add(lf)
+            if n['k'] in ('CXXMemberCallExpr',) and short_of(g.callee(i) or '') in ('swap', 'assign') and src in g.subtree_refs(i):
+                for r_ in g.subtree_refs(i):
+                    if r_ in fields:
+                        done.add(r_)
+        # through a setter of the same class: set(other.a_, other.b_) where set() stores its k-th parameter in that same field
+        for c in g.calls():
+            h = P.fns.get(g.N(c).get('callee') or '')
+            if h is None or h is g or (h.record or '') != record or h.body is None or len(g.args(c)) != len(h.params):
+                continue
+            for p_, a_ in zip(h.params, g.args(c)):
+                af = [x for x in g.subtree_refs(a_) if x in fields]
+                if src not in g.subtree_refs(a_) or len(af) != 1:
+                    continue
+                for i in h.all_nodes():
+                    n = h.N(i)
+                    if ((n['k'] == 'BinaryOperator' and n.get('op') == '=') or (n['k'] == 'CXXOperatorCallExpr' and n.get('op') == '=')) and \
+                            h.ref_of(n['ch'][-2]) == af[0] and p_['ref'] in h.subtree_refs(n['ch'][-1]):
+                        done.add(af[0])
+        out[g] = sorted(fields - done)
+    return sorted(fields), out
